@@ -139,6 +139,9 @@ func runHistory(r *sup.CaseResult, ops []mfs.Op, gen *mfs.Gen, nops int, every i
 			}
 			subj.MangleRetained()
 		}
+		if model.Root.Count() > 3000 {
+			break // copies of a directory below itself double the tree: stop without verdict once it has grown this far
+		}
 		if every <= 1 || i%every == every-1 || i == nops-1 {
 			obs, anomalies := mfs.ObserveLimit(root, model.Root.Depth()+2, model.Root.Count()*4+1000)
 			if len(anomalies) > 0 {
